@@ -51,7 +51,7 @@ Section Markdown.
     end.
 
   (* the events of the `matches!(event, SoftBreak | HardBreak | InlineMath | DisplayMath | Code | Text | Html | InlineHtml)`
-     of the covered_until guard (8b26ba4) *)
+     of the covered_until / behind_cursor guard (8b26ba4, b736ef8) *)
   Definition is_leaf (e : mev) : bool :=
     match e with MSoftBreak | MHardBreak | MCodeLike _ | MText _ | MHtml _ => true | _ => false end.
 
@@ -93,9 +93,10 @@ Section Markdown.
     match evs with
     | [] => Ok []
     | e :: rest =>
+        let behind := me_rs e <? tb in                        (* let behind_cursor = range.start < traversed_bytes; (b736ef8) *)
         do '(tb, tc) <- md_advance bs tb tc (me_rs e);
         let cu := cu_top cu lastend in                       (* if let Some(last) = tokens.last() { .. max .. } *)
-        if is_leaf (me_ev e) && (tc <? cu) then               (* `continue` of the guard *)
+        if is_leaf (me_ev e) && (behind || (tc <? cu)) then   (* `continue` of the guard *)
           mk_loop src bs rest tb tc cu lastend stack
         else
           do out <- mk_step src bs stack tc e;
@@ -188,62 +189,24 @@ Definition document_markdown (u : uni) (ilt : bool) (src : text) (evs : list mev
   document_passes src toks.
 
 (* ---------- the contract of the event stream (specification side; decidable, evaluated by the driver too) ----------
-   Since 8b26ba4 the code itself skips a token-bearing ("leaf") event that starts before the end of the tokens pushed
-   so far: ORDER and DISJOINTNESS of the leaf events are no longer assumed (the old clause K2 is gone).  What is
-   still asked of pulldown-cmark, and only of the events the guard does NOT skip:
-   (K1) every range starts on a char boundary of the source; the range of a Text event is start <= end on char
-        boundaries (the code slices the source string by it);
-   (K3) a leaf event that pushes a covering token: its range ends on a char boundary at or after the cursor
-        (= the largest range start so far) and the source between the cursor and that end holds at least the
-        characters the token claims — 1 for the breaks, the payload for Code / Math / Html, the clamped length for
-        Text; an Html payload is not empty (an empty Code / Math payload is skipped by the code since a37d1cc).
-   The contract is a shadow run of the loop's bookkeeping (cursor, covered_until, tag stack) that needs no lexing:
-   `ext` = the end of the last token an event pushes, if it pushes one. *)
-Definition text_pushes (ilt : bool) (stack : list md_tag) : bool :=
-  match stack with
-  | [] => true
-  | TCodeBlock :: _ => true
-  | TLink :: _ => true
-  | tag :: _ => tag_is_prose ilt tag
-  end.
-(* (characters claimed by the covering token, or None when the event pushes no covering token) *)
-Definition claim (ilt : bool) (bs : list N) (stack : list md_tag) (e : mevent) : option nat :=
-  match me_ev e with
-  | MSoftBreak | MHardBreak => Some 1
-  | MCodeLike n => if n =? 0 then None else Some n
-  | MHtml n => Some n
-  | MText n =>
-      let cl := Nat.min n (count_chars (slice bs (me_rs e) (me_re e))) in
-      if cl =? 0 then None else if text_pushes ilt stack then Some cl else None
-  | _ => None
-  end.
-Definition ext (ilt : bool) (bs : list N) (stack : list md_tag) (tc : nat) (e : mevent) : option nat :=
-  match me_ev e with
-  | MStart TList | MEndBreaking => Some tc                 (* zero-width *)
-  | _ => match claim ilt bs stack e with Some n => Some (tc + n) | None => None end
-  end.
-Fixpoint md_contractb (ilt : bool) (bs : list N) (tb cu : nat) (lastend : option nat) (stack : list md_tag)
-         (evs : list mevent) : bool :=
-  match evs with
-  | [] => true
-  | e :: rest =>
-      let tb' := Nat.max tb (me_rs e) in
-      let tc' := char_index bs tb' in
-      let cu' := cu_top cu lastend in
-      is_boundary bs (me_rs e) &&
-      if is_leaf (me_ev e) && (tc' <? cu') then md_contractb ilt bs tb' cu' lastend stack rest
-      else
-        (match me_ev e with
-         | MText _ => (me_rs e <=? me_re e) && is_boundary bs (me_re e)
-         | _ => true
-         end) &&
-        (match claim ilt bs stack e with
-         | Some n => (tb' <=? me_re e) && is_boundary bs (me_re e) && (n <=? count_chars (slice bs tb' (me_re e))) && (1 <=? n)
-         | None => true
-         end) &&
-        md_contractb ilt bs tb' cu'
-          (match ext ilt bs stack tc' e with Some x => Some x | None => lastend end)
-          (mk_stack stack (me_ev e)) rest
-  end.
-Definition md_contract (ilt : bool) (src : text) (evs : list mevent) : Prop :=
-  md_contractb ilt (encode src) 0 0 None [] evs = true.
+   Since 8b26ba4 / b736ef8 the code itself skips a token-bearing ("leaf") event that starts behind the cursor or before
+   the end of the tokens pushed so far: nothing is assumed any more about the ORDER of the events or their position
+   relative to each other.  What is still asked of pulldown-cmark is a property of each event ON ITS OWN:
+   (K1) the range starts on a char boundary of the source; the range of a leaf event is start <= end on char boundaries;
+   (K3) the payload fits its own range: the range holds at least 1 character for SoftBreak / HardBreak, at least the
+        payload's characters for Code / Math / Html; an Html payload is not empty (an empty Code / Math payload is
+        skipped by the code since a37d1cc; a Text event is clamped to its range by the code since 548c418). *)
+Definition ev_ok (bs : list N) (e : mevent) : bool :=
+  is_boundary bs (me_rs e) &&
+  (if is_leaf (me_ev e) then
+     (me_rs e <=? me_re e) && is_boundary bs (me_re e) &&
+     let cnt := count_chars (slice bs (me_rs e) (me_re e)) in
+     match me_ev e with
+     | MSoftBreak | MHardBreak => 1 <=? cnt
+     | MCodeLike n => n <=? cnt
+     | MHtml n => (1 <=? n) && (n <=? cnt)
+     | _ => true
+     end
+   else true).
+Definition md_contractb (bs : list N) (evs : list mevent) : bool := forallb (ev_ok bs) evs.
+Definition md_contract (src : text) (evs : list mevent) : Prop := md_contractb (encode src) evs = true.
